@@ -310,6 +310,25 @@ class KeyHashType(StringType, prim='key_hash'):
 
 
 class SignatureType(StringType, prim='signature'):
+    @property
+    def raw(self) -> bytes:
+        return base58_decode(self.value.encode())
+
+    def __eq__(self, other) -> bool:  # type: ignore
+        """
+        Signatures are compared by their bytes: the base58 prefix (edsig, spsig, p2sig, sig, BLsig) is not a part
+        of the value (e.g. it is lost in the optimized form)
+        """
+        if not isinstance(other, SignatureType):
+            return False
+        return self.raw == other.raw
+
+    def __lt__(self, other: 'SignatureType') -> bool:  # type: ignore
+        return self.raw < other.raw
+
+    def __hash__(self):
+        return hash(self.raw)
+
     @classmethod
     def dummy(cls, context: AbstractContext) -> 'SignatureType':
         return cls.from_value(context.get_dummy_signature())
